@@ -927,7 +927,19 @@ fn main() {
     let mut sqlite_trips = 0u64;
     for (idx, edge) in edges.iter().enumerate() {
         let use_sqlite = sqlite_every > 0 && idx % sqlite_every == 0;
-        if use_sqlite { sqlite_trips += 1 }
+        if use_sqlite {
+            sqlite_trips += 1;
+            // a fresh wallet database now and then keeps the retained history (and the run time) bounded
+            if sqlite_trips % 150 == 0 {
+                match Sqlite::open() {
+                    Ok(s) => sqlite = Some(s),
+                    Err(e) => {
+                        println!("{}", json!({"tool_error": format!("cannot create the wallet database: {e}")}));
+                        std::process::exit(2);
+                    }
+                }
+            }
+        }
         let out = run_edge(edge, if use_sqlite { sqlite.as_mut() } else { None }, seed);
         *by_op.entry(edge["ev"]["op"].as_str().unwrap().to_string()).or_default() += 1;
         if edge["ev"]["op"] == "advance" {
